@@ -1,7 +1,15 @@
 (* MulCostBank.v — C20: the work counter of the model on the fixed operand bank, evaluated by
-   the kernel's VM (each product once), and the three cost criteria on it.
-   Quick part: balanced n = 256, 512, 1024 and the unbalanced shapes n x (2n-1), n x 2n for
-   n = 256, 512.  The larger shapes are in MulCostBankBig.v (slow; thorough tier). *)
+   the kernel's VM (each product once), and the cost criteria on it.
+   Quick part (about 100 s): balanced n = 256, 512, 1024 and the unbalanced shapes n x (2n-1),
+   n x 2n for n = 256, 512.  The larger shapes are in MulCostBankBig.v (about 12 min; thorough tier).
+
+   These two files live in coq/slow/, which is NOT part of _CoqProject: every `./check` builds the
+   whole project, and the thorough tier re-checks props/*.vo with coqchk, whose lazy machine cannot
+   redo a VM evaluation of this size (it timed out after 50 min).  They are compiled by
+   `./check C20` itself (tools/gen/c20.py: extra_checks; this file in every tier, cached under the
+   hash of the model sources and gen/Extracted.v; the big one in the thorough tier) with
+     cd coq && coqc -noglob <-Q flags of _CoqProject> -Q slow BigNum slow/MulCostBank.v
+   and the output must say "Closed under the global context". *)
 From BigNum Require Import Base AddSub Mul MulCost Extracted.
 Open Scope Z_scope.
 
@@ -75,3 +83,4 @@ Proof.
            (bank_cost mul 256 511) (bank_cost mul 256 512) (bank_cost mul 512 1023) (bank_cost mul 512 1024)
            quick_ok_true).
 Qed.
+Print Assumptions bank_quick.
